@@ -1,5 +1,7 @@
 import Driver.Sched
 import Driver.Cycle
+import Driver.Auth
+import Driver.Hist
 /- line-protocol oracle: `driver <mode>` reads stdin, writes one answer per request -/
 open Driver
 
@@ -14,6 +16,12 @@ def main (args : List String) : IO UInt32 := do
   | ["cycle"] =>
     for l in lines do out.putStrLn (Cycle.runLine l)
     return 0
+  | ["hist"] =>
+    for l in Hist.run lines.toList do out.putStrLn l
+    return 0
+  | ["auth"] =>
+    for l in lines do out.putStrLn (Auth.runLine l)
+    return 0
   | _ =>
-    IO.eprintln "usage: driver sched|cycle"
+    IO.eprintln "usage: driver sched|cycle|auth"
     return 2
